@@ -561,6 +561,7 @@ func Run(cfg hx.Config) error {
 	}
 	rnd := hx.NewRand(cfg.Seed)
 	c := &checker{r: r, s: ctrl.NewSession(r)}
+	c.s.ReplayCorpus(cfg.Corpus)
 	c.known()
 	c.knownUnconfigured()
 
